@@ -113,9 +113,18 @@ func runC08(o *out, r *rng, thorough bool, replay string) {
 			ps = genPowersDominant(r, 2+r.intn(6), sweepBits(i/3)) // total bit length: native widths first, then swept
 		}
 		pt, err := mkPowerTable(ps)
+		if i%4 == 2 && len(ps) >= 2 {
+			// the same table built INCREMENTALLY: members are added in several Add calls (shuffled batches), the dominant
+			// member possibly last, so that earlier members are re-scaled -- possibly down to zero -- by a later Add
+			pt, err = mkPowerTableIncremental(r, ps)
+			o.Dist["tables-built-by-several-adds"]++
+		}
 		if err != nil {
 			o.violate("power table of positive powers is accepted", "PowerTable.Add", fmt.Sprint(ps), err.Error())
 			continue
+		}
+		if verr := pt.Validate(); verr != nil {
+			o.violate("a table built by Add is valid (its scaled powers are the protocol's)", "PowerTable.Validate", fmt.Sprint(ps), verr.Error())
 		}
 		scaled, total, err := pt.Entries.Scaled()
 		if err != nil {
